@@ -317,6 +317,81 @@ theorem canon_impl_eq_spec (sha256hex : Bytes → Bytes) (onMissing : Bytes → 
     SigV4Spec.canonicalHeaders, SigV4Spec.signedHeadersLine, hquery, uriEncode_eq, sortBytes_eq, hc, hs,
     Bool.not_false]
 
+/-! ## HTTP/2: `:authority` stands in for a missing `host` line -/
+
+/-- the header lines the specification sees -/
+def effectiveRaw (http2 : Bool) (authority : Option Bytes) (raw : List (Bytes × Bytes)) : List (Bytes × Bytes) :=
+  if http2 && !(raw.any fun h => lower h.1 = b!"host") then
+    match authority with
+    | some a => (b!"host", a) :: raw
+    | none => raw
+  else raw
+
+def hsOf (raw : List (Bytes × Bytes)) : List (Bytes × Bytes) := sortByFirst (raw.map fun p => (lower p.1, p.2))
+
+theorem getAllPairs_hsOf (raw : List (Bytes × Bytes)) (n : Bytes) :
+    getAllPairs (hsOf raw) n = (raw.filter fun h => lower h.1 = n).map fun p => (lower p.1, p.2) :=
+  getAllPairs_hs { method := [], path := [], qs := [], headers := raw, signed := [], payload := .empty } n
+
+/-- selecting with the `on_missing` closure of the code = selecting, without any fallback, from the lines the
+    specification sees -/
+theorem findMultiple_fallback (http2 : Bool) (authority : Option Bytes) (raw : List (Bytes × Bytes)) (names : List Bytes) :
+    findMultiple (hsOf raw) names (hostFallback http2 authority) =
+      findMultiple (hsOf (effectiveRaw http2 authority raw)) names (fun _ => none) := by
+  unfold findMultiple
+  congr 1
+  funext n
+  rw [getAllPairs_hsOf, getAllPairs_hsOf]
+  unfold effectiveRaw hostFallback
+  by_cases hcond : (http2 && !(raw.any fun h => lower h.1 = b!"host")) = true
+  · rw [if_pos hcond]
+    simp only [Bool.and_eq_true, Bool.not_eq_true', List.any_eq_false, decide_eq_true_eq] at hcond
+    obtain ⟨h2, hnohost⟩ := hcond
+    cases authority with
+    | none =>
+      simp only []
+      cases hsel : (raw.filter fun h => lower h.1 = n).map fun p => (lower p.1, p.2) with
+      | nil => by_cases hn : n = b!"host" <;> simp [hn, h2]
+      | cons x xs => rfl
+    | some a =>
+      simp only []
+      by_cases hn : n = b!"host"
+      · subst hn
+        have hempty : (raw.filter fun h => lower h.1 = b!"host") = [] := by
+          rw [List.filter_eq_nil_iff]
+          intro h hh
+          simpa using hnohost h hh
+        have hl : lower b!"host" = b!"host" := by decide
+        simp [hempty, h2, List.filter_cons, hl]
+      · have hl : lower b!"host" ≠ n := by
+          have : lower b!"host" = b!"host" := by decide
+          rw [this]; exact fun e => hn e.symm
+        rw [List.filter_cons]
+        simp only [hl, decide_false, Bool.false_eq_true, if_false]
+        cases hsel : (raw.filter fun h => lower h.1 = n).map fun p => (lower p.1, p.2) with
+        | nil => simp [hn]
+        | cons x xs => rfl
+  · rw [if_neg hcond]
+    cases hsel : (raw.filter fun h => lower h.1 = n).map fun p => (lower p.1, p.2) with
+    | cons x xs => rfl
+    | nil =>
+      simp only []
+      by_cases hn : n = b!"host"
+      · subst hn
+        -- no `host` line, so the condition fails because the request is not HTTP/2 (or has no authority)
+        have hnohost : (raw.any fun h => lower h.1 = b!"host") = false := by
+          rw [List.any_eq_false]
+          intro h hh
+          have : (raw.filter fun h => lower h.1 = b!"host") = [] := by simpa using hsel
+          rw [List.filter_eq_nil_iff] at this
+          simpa using this h hh
+        have h2 : http2 = false := by
+          cases http2 with
+          | false => rfl
+          | true => simp [hnohost] at hcond
+        simp [h2]
+      · simp [hn]
+
 /-! ## the presigned twin -/
 
 /-- what `v4_check_presigned_url` feeds into `create_presigned_canonical_request` (the list of
